@@ -132,8 +132,8 @@ Definition header_decision (isnum : cell -> bool) (o : options) (rows : grid) : 
   else if negb incl && have then (off - 1, repeat [] (length headers))
   else (off, headers).
 
-(* The one place where the current source and the proposed repair
-   (notes/proposed_fixes/C32-late-wide-row.diff: `headers = import_utils.expand_headers(headers, 0, rows)`
+(* The one place where the source before and after the repair (commit 6b8f366, was
+   notes/proposed_fixes/C32-late-wide-row.diff: `headers = import_utils.expand_headers(headers, 0, rows)`
    after `rows = rows[data_offset:]`) differ. *)
 Definition widen (repaired : bool) (headers : list cell) (rows_after_offset : grid) : list cell :=
   if repaired then expand_headers headers 0 rows_after_offset else headers.
@@ -178,8 +178,9 @@ Definition import_csv_gen (repaired : bool) (isnum : cell -> bool) (g : grid) (o
   let headers := csv_headers repaired isnum g o in
   build_columns 0 (get_table_data (csv_data_rows isnum g o) (length headers)) headers.
 
-(* THE ONE-LINE SWITCH: false = /repo's current source, true = source with the proposed repair applied. *)
-Definition source_is_repaired : bool := false.
+(* THE ONE-LINE SWITCH: true = /repo's current source (repair applied as commit 6b8f366: headers widened over all
+   data rows); false = the source before that commit, kept to document what the repair was needed for. *)
+Definition source_is_repaired : bool := true.
 
 Definition import_csv : (cell -> bool) -> grid -> options -> list column :=
   import_csv_gen source_is_repaired.
@@ -203,7 +204,7 @@ Definition C32_statement (repaired : bool) (isnum : cell -> bool) (g : grid) (o 
 (* every data row fits into the table width (decidable form of "no cell is cut off") *)
 Definition rows_fit (w : nat) (rows : grid) : bool := forallb (fun r => count_nonempty r <=? w) rows.
 
-(* The defect excluded by the positive theorem for the current source, cause 1: a row after the sample
+(* The defect excluded by the positive theorem for the source BEFORE the repair, cause 1: a row after the sample
    that is wider than the width derived from the sample. *)
 Definition late_rows_fit (isnum : cell -> bool) (g : grid) (o : options) : Prop :=
   Forall (fun r => count_nonempty r <= csv_width false isnum g o) (skipn sample_len g).
